@@ -24,9 +24,8 @@ PROPS = {
         "units": ["history", "table", "blockdb", "dbfacade"],
         "kani": [],
         "level_text": "Function-by-function proof that an accepted rollback restores the state as of N on the storage kernel: per-key history (set/unset/prune/reorg, window lemmas), block tables (reorg truncates to <= N), facade reorg (depth guard exactly `max ever > 10 + N => Err and *final == *old`; one rolled-back conjunct per table, 12 + 3), every setter stamped with the next block height, recorded maximum monotone.",
-        "level_note": COMMON_TRUST + "Assumed contracts: BlockCachedDatabase::reorg (body not yet under proof; contract in contracts/table/reorg.contract), and that a passing depth check implies every history holds a version <= N (precondition of facade reorg). Not covered: engine glue and RPC layer, revm's DatabaseCommit feeding the tables, comparison with a second fresh instance (replaced by value_at semantics).",
+        "level_note": COMMON_TRUST + "BlockCachedDatabase::reorg is proved against its real body (three loops; every key with a persisted or in-memory history is truncated, committed at N; lemma from truncation to the statement). Assumed: that a passing depth check implies every history holds a version <= N (precondition of facade reorg). Not covered: engine glue and RPC layer, revm's DatabaseCommit feeding the tables, comparison with a second fresh instance (replaced by value_at semantics).",
         "assumptions": [
-            "BlockCachedDatabase::reorg contract assumed (stage 2)",
             "facade reorg: `max_recorded <= 10 + N ==> every history has a version <= N` is a precondition (follows from pruning relative to the monotone recorded maximum; not yet proved as an invariant)",
             "engine/RPC layer, revm DatabaseCommit, closure bodies passed to SharedData are outside the kernel",
         ],
@@ -35,8 +34,8 @@ PROPS = {
         "units": ["table", "blockdb", "dbfacade"],
         "kani": [],
         "level_text": "Proof that commit points are unobservable on the storage kernel: table commit preserves cur(k) for every key (also on Err), block-table commit preserves view_at, commit_changes preserves every read of all 15 stores and empties all caches, clear_caches changes nothing persisted and resets the cached height; reads are functions of the merged view only.",
-        "level_note": COMMON_TRUST + "`Stop and reopen` is the DB shim's assumption that a reopened store has the same byte map. Engine-level guards (commit only with no block under construction) are covered under C05. Assumed contracts: table get_range/all/reorg.",
-        "assumptions": ["reopen = same byte map (DB shim)", "table get_range/all contracts assumed (stage 2)"],
+        "level_note": COMMON_TRUST + "`Stop and reopen` is the DB shim's assumption that a reopened store has the same byte map. Engine-level guards (commit only with no block under construction) are covered under C05.",
+        "assumptions": ["reopen = same byte map (DB shim)"],
     },
     "C12": {
         "units": ["auth"],
@@ -52,9 +51,9 @@ PROPS = {
     "C13": {
         "units": ["history", "table", "blockdb"],
         "kani": [],
-        "level_text": "Proof against an abstract Map model written from the statement: per-key history functional postconditions (set_spec / truncated / pruned) + lemmas (window preserved, rollback restores, <= 11 versions); table latest/set/unset/commit/retrieve_cache/clear_cache; block table get/set/commit/last_key/reorg with loop invariants and termination.",
-        "level_note": COMMON_TRUST + "Assumed contracts: BlockCachedDatabase::{reorg,get_range,all} (bodies not yet under proof).",
-        "assumptions": ["BlockCachedDatabase::{reorg,get_range,all} contracts assumed (stage 2)"],
+        "level_text": "Proof against an abstract Map model written from the statement: per-key history functional postconditions (set_spec / truncated / pruned) + lemmas (window preserved, rollback restores, <= 11 versions); table latest/set/unset/commit/retrieve_cache/clear_cache/reorg/get_range/all (range and full scans: complete, duplicate-free, in encoded-key order, values = what reads return; rollback: every key reads its value as of N and the window below N is preserved); block table get/set/commit/last_key/reorg with loop invariants and termination.",
+        "level_note": COMMON_TRUST + "Every function of the three files is proved against its real body; the iteration primitives of RocksDB and HashMap/HashSet/sort are trusted wrappers (N9, N16, N28, N33).",
+        "assumptions": ["RocksDB iterators return every entry >= start in ascending byte order and do not fail mid-scan (N16)"],
     },
     "C16": {
         "units": ["scalars"],
@@ -95,9 +94,8 @@ PROPS["C18"] = {
     "units": ["dbfacade"],
     "kani": [],
     "level_text": "Proof on the real Brc20ProgDatabase::get_logs (three nested loops with invariants, termination): ranges wider than 6 blocks are refused; otherwise the result equals, as a sequence, the matching logs of the receipts of the range scan [key(from,0), key(to+1,0)) in entry order and log order, with the filter written from the statement (address equal if given; per position: null wildcard, single value equal, list = alternatives, null inside a list matches nothing).",
-    "level_note": COMMON_TRUST + "The range scan itself is the table's get_range CONTRACT (complete, duplicate-free, encoded-key order; body of get_range not yet under proof) and key order = (block, index) order is the U128 codec order lemma (C14). Rule N28 turns the two `for` loops that use `continue` into index loops (Verus has no `continue` in for-loops). Requires from <= to (a reversed range relies on wrapping arithmetic of the release profile and is refused as too large). Not covered: parse_block_number, the async handler, log contents produced by revm.",
+    "level_note": COMMON_TRUST + "The range scan is the table's get_range contract (complete, duplicate-free, encoded-key order), proved against the real body in unit table; key order = (block, index) order is the U128 codec order lemma (C14). Rule N28 turns the two `for` loops that use `continue` into index loops (Verus has no `continue` in for-loops). Requires from <= to (a reversed range relies on wrapping arithmetic of the release profile and is refused as too large). Not covered: parse_block_number, the async handler, log contents produced by revm.",
     "assumptions": [
-        "BlockCachedDatabase::get_range contract assumed (stage 2)",
         "from <= to and heights < 2^63 are preconditions",
         "N28: `for x in vec` with `continue` rewritten to an index loop cloning the element",
     ],
@@ -107,8 +105,8 @@ PROPS["C02"] = {
     "units": ["scalars", "dbfacade", "table"],
     "kani": [],
     "level_text": "Functional postconditions `result == pure function of the arguments` on the consensus-path kernels: gas allowance and its inverse, fork schedule (Prague from 923369 / 275000, RLP hash from 929000) with the constants pinned, generate_block_hash, the (block,index) key, eth_getLogs output as a sequence (order included) over the range scan contract, scan results in encoded-key order; DB_VERSION/PROTOCOL_VERSION pinned under C20. A result that depended on HashMap iteration order could not satisfy these postconditions (that is how D4/D5 were found).",
-    "level_note": COMMON_TRUST + "keccak/merkle/bloom are uninterpreted (determinism inside those libraries assumed); revm, serde_json field order, trace string sorting (closure), generate_block/generate_raw_block bodies (merkle, bloom, revm types) are not under contract; get_range/all contracts assumed (stage 2).",
-    "assumptions": ["revm / alloy / serde determinism", "table get_range/all contracts assumed (stage 2)", "generate_block and generate_raw_block bodies not under contract"],
+    "level_note": COMMON_TRUST + "keccak/merkle/bloom are uninterpreted (determinism inside those libraries assumed); revm, serde_json field order, trace string sorting (closure), generate_block/generate_raw_block bodies (merkle, bloom, revm types) are not under contract; ",
+    "assumptions": ["revm / alloy / serde determinism", "generate_block and generate_raw_block bodies not under contract"],
 }
 PROPS["C04"] = {
     "units": ["table", "blockdb", "dbfacade"],
